@@ -441,10 +441,12 @@ public:
 
         operator bool() {
             if (!this->await_ready()) {
-                return this->wait();
-            } else {
-                return this->await_resume();
+                //await_ready() moves the reading position, it must not be called again,
+                //and the result must be picked by await_resume() of this class
+                sync_awaiter awt;
+                if (this->subscribe(&awt)) awt.wait_sync();
             }
+            return this->await_resume();
         }
         bool await_resume() {
             return this->_owner.check_next();
